@@ -401,6 +401,10 @@ class DiHypergraph:
 
         if strong:
             for edge in edge_neighbors["in"].union(edge_neighbors["out"]):
+                for node in self._edge[edge]["in"] - {n}:
+                    self._node[node]["out"].discard(edge)
+                for node in self._edge[edge]["out"] - {n}:
+                    self._node[node]["in"].discard(edge)
                 del self._edge[edge]
                 del self._edge_attr[edge]
         else:  # weak removal
